@@ -564,6 +564,165 @@ pub fn walks(prop: &str, seed: u64, count: usize, nsyms: usize, rep: &mut Report
     }
 }
 
+/// C08: option x header-size-field x end-marker x caller-supplied-size matrix on the one-shot and
+/// the streaming API (the raw decoder is covered by the TLC export).
+pub fn options_matrix(prop: &str, seed: u64, nprogs: usize, rep: &mut Report) {
+    let mut rng = StdRng::seed_from_u64(seed ^ 0xc08);
+    for pi in 0..nprogs {
+        let props = Props { lc: [3, 0, 8, 2][pi % 4], lp: [0, 4, 0, 1][pi % 4], pb: [2, 0, 4, 3][pi % 4] };
+        let nsyms = [1usize, 3, 12, 80][pi % 4];
+        let mut prog = random_walk(&mut rng, &WalkCfg { nsyms, props, max_dist: 4096, lit_alphabet: 200 });
+        if pi % 3 == 0 {
+            // make the last symbol a match, so that "true - 1" is overshot by a copy
+            prog.push(Sym::Match { d: 1, n: 7 });
+        }
+        let t = coding::encode_program(&prog, props).out.len() as u64;
+        for marker in [false, true] {
+            let mut p2 = prog.clone();
+            if marker {
+                p2.push(Sym::Eos);
+            }
+            let fields: Vec<Option<u64>> = vec![None, Some(t), Some(t + 1), Some(t.saturating_sub(1)), Some(0), Some(1 << 40)];
+            let ns: Vec<Option<u64>> = vec![None, Some(t), Some(t + 1), Some(t.saturating_sub(1)), Some(0)];
+            for (fi, field) in fields.iter().enumerate() {
+                let mut opts: Vec<Opt> = vec![Opt::ReadFromHeader];
+                for n in &ns {
+                    opts.push(Opt::ReadHeaderButUseProvided { n: *n });
+                }
+                if fi == 0 {
+                    for n in &ns {
+                        opts.push(Opt::UseProvided { n: *n });
+                    }
+                }
+                for opt in opts {
+                    for api_name in ["oneshot", "stream"] {
+                        let mut c = LzmaCase {
+                            api: api_name.into(),
+                            props,
+                            dict: [0u32, 4096, 1 << 20][pi % 3],
+                            prog: p2.clone(),
+                            size_field: *field,
+                            opt,
+                            raw_size: None,
+                            memlimit: None,
+                            trailing: if pi % 5 == 4 { "00".into() } else { String::new() },
+                            truncate: None,
+                            cuts: vec![],
+                            data_hex: None,
+                            spec: None,
+                            origin: format!("options-matrix:{}", pi),
+                        };
+                        if api_name == "stream" {
+                            let total = c.bytes().len();
+                            c.cuts = (0..rng.gen_range(0..4)).map(|_| rng.gen_range(0..=total)).collect();
+                            c.cuts.sort();
+                        }
+                        let ok = check_case_hdr(&c, prop, rep);
+                        if ok && rep.samples.len() < 8 && fi == 2 && api_name == "oneshot" && marker {
+                            rep.sample(json!({"origin": c.origin, "true_len": t, "header_size_field": field, "opt": c.opt, "marker": marker, "api": api_name}));
+                        }
+                    }
+                }
+            }
+        }
+    }
+}
+
+/// check_case plus the "header bytes consumed" clause of C08 for the one-shot API: on success
+/// the reader must have moved past exactly header(13/13/5) + payload bytes.
+pub fn check_case_hdr(c: &LzmaCase, prop: &str, rep: &mut Report) -> bool {
+    let ok = check_case(c, prop, rep);
+    if ok && c.api == "oneshot" {
+        let data = c.bytes();
+        let e = c.expect(&data);
+        if e.v == Exp::Ok {
+            let o = run_real(c, &data);
+            if let (Some(ec), Some(oc)) = (e.consumed, o.consumed) {
+                if ec != oc {
+                    let mut cj = serde_json::to_value(c).unwrap();
+                    cj["kind"] = json!("lzma");
+                    rep.violation(prop, format!("consumed {} bytes in total, header ({}) + payload end at {}", oc, c.opt.header_len(), ec), cj);
+                    return false;
+                }
+            }
+        }
+    }
+    ok
+}
+
+/// C10: memory limits around the window actually needed, one-shot and streaming, with the
+/// peak heap observed by the counting allocator.
+pub fn memlimit_matrix(prop: &str, seed: u64, nprogs: usize, rep: &mut Report) {
+    use crate::io::alloc;
+    let mut rng = StdRng::seed_from_u64(seed ^ 0xc10);
+    for pi in 0..nprogs {
+        let props = Props { lc: 3, lp: 0, pb: 2 };
+        let dict: u32 = [4096u32, 8192, 1 << 16, 1 << 20][pi % 4];
+        // outputs below and above the dictionary
+        let target_out = [100usize, 3000, 5000, 20000, 70000][pi % 5];
+        let mut prog: Vec<Sym> = vec![];
+        let mut cs = CS::default();
+        while cs.out.len() < target_out {
+            let s = if cs.out.is_empty() || rng.gen_bool(0.3) { Sym::Lit { b: rng.gen() } } else {
+                let d = rng.gen_range(1..=(cs.out.len() as u64).min(dict as u64).min(4096));
+                Sym::Match { d, n: rng.gen_range(2..=273) }
+            };
+            if cs.valid(&s) {
+                cs.apply(&s);
+                prog.push(s);
+            }
+        }
+        prog.push(Sym::Eos);
+        let produced = cs.out.len() as u64;
+        let dict_eff = (dict as u64).max(4096);
+        let need = produced.min(dict_eff);
+        let mut limits: Vec<Option<u64>> = vec![Some(0), Some(need - 1), Some(need), Some(need + 1), Some(dict_eff - 1), Some(dict_eff), None, Some(u32::MAX as u64)];
+        limits.dedup();
+        for m in limits {
+            for api_name in ["oneshot", "stream", "raw"] {
+                let mut c = LzmaCase {
+                    api: api_name.into(),
+                    props,
+                    dict: if api_name == "raw" { dict_eff as u32 } else { dict },
+                    prog: prog.clone(),
+                    size_field: None,
+                    opt: Opt::ReadFromHeader,
+                    raw_size: None,
+                    memlimit: m,
+                    trailing: String::new(),
+                    truncate: None,
+                    cuts: vec![],
+                    data_hex: None,
+                    spec: None,
+                    origin: format!("memlimit-matrix:{}", pi),
+                };
+                if api_name == "stream" {
+                    let total = c.bytes().len();
+                    c.cuts = (0..rng.gen_range(0..5)).map(|_| rng.gen_range(0..=total)).collect();
+                    c.cuts.sort();
+                }
+                let data = c.bytes();
+                let base = alloc::begin();
+                let ok = check_case(&c, prop, rep);
+                let peak = alloc::peak_above(base);
+                // history buffered by the decoder is at most m: allow Vec doubling (2m), the sink (2 * produced, ours),
+                // probability tables and encoder-side scratch of this harness call (data + output copies)
+                if let Some(mm) = m {
+                    let allowance = 2 * mm as usize + 6 * produced as usize + 4 * data.len() + (1 << 20);
+                    if ok && peak > allowance {
+                        let mut cj = serde_json::to_value(&c).unwrap();
+                        cj["kind"] = json!("lzma");
+                        rep.violation(prop, format!("peak heap {} bytes with memory limit {} (output {} bytes): more than the limit allows for the history window", peak, mm, produced), cj);
+                    }
+                }
+                if ok && rep.samples.len() < 8 && api_name == "stream" {
+                    rep.sample(json!({"origin": c.origin, "dict": dict, "produced": produced, "need": need, "memlimit": m, "api": api_name, "peak_heap": peak}));
+                }
+            }
+        }
+    }
+}
+
 pub fn replay_value(v: &Value, prop: &str, rep: &mut Report) {
     let c: LzmaCase = serde_json::from_value(v.clone()).expect("lzma case");
     check_case(&c, prop, rep);
